@@ -1,59 +1,232 @@
 (* Props/C02.v — C02: `pna create` then `pna extract` reproduces the directory tree.
 
    Model: Model/Extract.v — create_from_tree (collect_items + create_entry + apply_metadata; the walk
-   order is an oracle permutation), extract_all (run_extract_archive_reader + extract_entry on the
-   abstract file system of Model/Fs.v), expected (the tree restricted to what the options keep).
-   The container is not part of this model: the logical entry list that `create` builds is the list
-   `extract` reads.  That is property C01 (and C04 for --split, and the equality of the three write
-   paths file / stdio pipe / stdio -f, which all call create_archive_file): it enters here as the
-   named section hypothesis `transport_lossless`.
+   order is an oracle), extract_run / extract_all (run_extract_archive_reader + extract_entry, the repaired
+   code, on the abstract file system of Model/Fs.v), expected (the tree restricted to what the options
+   keep: defined from the tree and the options alone, it never runs the extractor).
 
-   Proved (partial):
-     * C02_names_survive: the name stored for a walked path of Normal components is read back, after
-       the reader's sanitisation, as exactly those components;
-     * C02_create_entries_partial: for every well-formed tree, every walk order and every option set the
-       extractor receives exactly the collected items (everything but directories; directories too with
-       --keep-dir), in walk order, under their own paths;
-     * C02_round_trip_examples: the complete statement
-           tree_of (extract_all o (create_from_tree c order tree) empty_dir) = expected c o order tree
-       evaluated in the kernel for a tree with nested and empty directories, an empty file, xattrs and
-       symbolic links to a file, a directory and nothing, with all keep options and with none.
-   NOT proved: the complete statement for all trees (an induction over the walk order with the file
-   system invariants of ExtractFacts plus content tracking); it rests on the correspondence runs
-   (60 / 2 000 generated trees x option vectors through the real binary, compared with this model).
-   Outside: kernel file system semantics, the `ignore` walker (its order is read back from the archive),
-   xattr support of the sandbox file system, directory / symbolic-link timestamps (never restored). *)
-From PNA Require Import Base Name Fs Extract ExtractRun BaseFacts NameFacts ExtractFacts.
+   Proved, for EVERY tree, walk order, output directory and option vector (Proofs/CreateExtractFacts.v):
+     * C02_create_extract: extraction into the empty directory exits 0 and the tree read back below `out`
+       equals `expected`: same paths and kinds, file contents exact, link targets exact up to
+       EntryReference's normalisation (applied once by create and once by extract; dangling links and links
+       to directories are links), file mode / mtime / xattrs exactly when the flag is set on BOTH sides,
+       directory entries only with --keep-dir (their mode with --keep-permission on both sides), parents of
+       kept items as plain directories otherwise, nothing else below `out`.  `create` never emits hard links.
+       Premises, all decidable (tree_okb, parents_firstb, wf_treeb) and each shown needed or discharged:
+         o_guarded o        the repaired extractor (C02_create_extract_unguarded_refuted: the code before the
+                            C09 repairs chmods THROUGH an extracted link with the link's own stored mode);
+         wf_tree, tree_ok   Normal path components; every path once and not empty; only directories have
+                            something below them; attributes form a table (names strictly increasing); link
+                            targets non-empty UTF-8 (read_to_string);
+         walk_order_ok      the order lists exactly the tree's paths; with --keep-dir and without --overwrite
+                            nothing precedes a directory above it (C02_parents_first_needed: otherwise the
+                            directory entry meets AlreadyExists) — the walker yields parents first;
+         out                plain components, not the root.
+     * C02_transport_lossless / C02_create_archive_extract(_real) / C02_create_solid_archive_extract: the
+       container in between (C01, Proofs/CreateTransportFacts.v): for every configuration (codec, level,
+       cipher, mode), cipher context per entry (wf_ctx), write slicing and read-buffer policy, reading the
+       archive written from the jobs that carry create's entries gives back exactly those entries, hence the
+       same tree; with the AES-256 / Camellia-256 models the only premises left are the compressor and KDF
+       laws and the format's own ranges (wf_job; C02_create_spec_wf reads the metadata ranges off the tree).
+       Fields carried and compared: name, kind, content / target, fPRM mode, mTIM seconds, xattrs.  cTIM, aTIM
+       and the owner are carried by the container but not observed by this file-system model (free `aux`).
+     * C02_names_survive, C02_create_entries: what reaches the extractor.
+   Examples: the premises hold for the tree of the old instance theorem, which is kept.
+   NOT proved here: --split (the part chain is C04 / C14 split_read_back; the entry list is the same),
+   extraction into a non-empty directory (C20), --overwrite into an older extraction.
+   Outside: kernel file system semantics (permission checks while extracting into a read-only directory,
+   ownership / chown), the `ignore` walker (its order is an oracle; read back from the archive in the runs),
+   xattr support of the file system, directory / symbolic-link timestamps (stored, never restored),
+   names that are not UTF-8 (EntryName::from_lossy rewrites them), --keep-acl. *)
+From PNA Require Import Base Crc32 Name Codec Chunk Archive Entry Flatten Cbc Ctr Pipeline Aes Camellia
+  BaseFacts NameFacts CodecFacts ChunkFacts ArchiveFacts EntryFacts CbcFacts PipelineFacts AesFacts CamelliaFacts.
+From PNA Require Import Fs Extract ExtractRun ExtractFacts CreateExtractFacts CreateTransportFacts.
+Require Import Permutation.
 Open Scope N_scope.
 
-Section C02.
-(* C01/C04: what `extract` reads is what `create` wrote *)
-Variable transport : list xentry -> list xentry.
-Hypothesis transport_lossless : forall es, transport es = es.
+(* ---- the main theorem ---------------------------------------------------------------------------------- *)
+Theorem C02_create_extract : forall c o out order t,
+  o_guarded o = true -> wf_tree t -> tree_ok t -> walk_order_ok c o t order ->
+  Forall ExtractFacts.plain out -> out <> [] ->
+  tree_of c o out order (extract_all o out (create_from_tree c order t) (empty_dir out)) = expected c o order t /\
+  snd (extract_run o out (create_from_tree c order t) (empty_dir out)) = true.
+Proof. exact create_extract. Qed.
+Check C02_create_extract : forall c o out order t,
+  o_guarded o = true -> wf_tree t -> tree_ok t -> walk_order_ok c o t order ->
+  Forall ExtractFacts.plain out -> out <> [] ->
+  tree_of c o out order (extract_all o out (create_from_tree c order t) (empty_dir out)) = expected c o order t /\
+  snd (extract_run o out (create_from_tree c order t) (empty_dir out)) = true.
+Print Assumptions C02_create_extract.
 
-Lemma create_entries_transported c t : wf_tree t -> forall order,
-  map (fun e => name_comps (e_name e)) (transport (create_from_tree c order t)) = filter (kept c t) order.
-Proof. intros WF order. rewrite transport_lossless. apply create_entries. exact WF. Qed.
-End C02.
-Print Assumptions create_entries_transported.
+(* the premises, spelled out *)
+Theorem C02_premises_unfolded : forall c o t order,
+  (tree_ok t <->
+     NoDup (map fst t) /\
+     (forall p n, In (p, n) t -> p <> [] /\
+        match n with
+        | TFile _ _ _ xs => Sorted.StronglySorted (fun a b => bytes_ltb (fst a) (fst b) = true) xs
+        | TDir _ => True
+        | TLink tg => tg <> [] /\ utf8_valid tg = true
+        end) /\
+     (forall p q n m, In (p, n) t -> In (q, m) t -> (exists b, b <> [] /\ q = p ++ b) -> exists md, n = TDir md)) /\
+  (walk_order_ok c o t order <->
+     Permutation (map fst t) order /\
+     (c_keep_dir c = true -> o_overwrite o = false ->
+      forall l1 p l2 q, order = l1 ++ p :: l2 -> In q l1 -> ~ (exists b, b <> [] /\ q = p ++ b))).
+Proof. exact premises_unfolded. Qed.
+Print Assumptions C02_premises_unfolded.
 
+(* ---- the container in between ----------------------------------------------------------------------------- *)
+Theorem C02_transport_lossless :
+  forall (E D : encryption -> bytes -> bytes -> bytes) (compress : compression -> N -> list bytes -> list bytes)
+         (decompress : compression -> bytes -> res bytes) (verify : bytes -> bytes -> res bytes),
+  (forall a k c, len16 c -> len16 (D a k c)) -> (forall a k b, len16 b -> D a k (E a k b) = b) ->
+  (forall a k b, len16 b -> len16 (E a k b)) ->
+  (forall c lvl ws, decompress c (concat (compress c lvl ws)) = Ok (concat ws)) ->
+  (forall c lvl (ws ws' : list bytes), concat ws = concat ws' -> concat (compress c lvl ws) = concat (compress c lvl ws')) ->
+  forall pw rb jobs es,
+  Forall2 carries jobs es -> Forall (wf_job E compress verify pw) jobs -> Forall (fun e => e_kind e <= 3) es ->
+  (forall j, In j jobs -> reads_to_end E compress rb j) ->
+  entries_of E D decompress verify pw rb (write_archive (map (build_job E compress) jobs)) = Ok es.
+Proof. exact transport_lossless. Qed.
+Check C02_transport_lossless :
+  forall (E D : encryption -> bytes -> bytes -> bytes) (compress : compression -> N -> list bytes -> list bytes)
+         (decompress : compression -> bytes -> res bytes) (verify : bytes -> bytes -> res bytes),
+  (forall a k c, len16 c -> len16 (D a k c)) -> (forall a k b, len16 b -> D a k (E a k b) = b) ->
+  (forall a k b, len16 b -> len16 (E a k b)) ->
+  (forall c lvl ws, decompress c (concat (compress c lvl ws)) = Ok (concat ws)) ->
+  (forall c lvl (ws ws' : list bytes), concat ws = concat ws' -> concat (compress c lvl ws) = concat (compress c lvl ws')) ->
+  forall pw rb jobs es,
+  Forall2 carries jobs es -> Forall (wf_job E compress verify pw) jobs -> Forall (fun e => e_kind e <= 3) es ->
+  (forall j, In j jobs -> reads_to_end E compress rb j) ->
+  entries_of E D decompress verify pw rb (write_archive (map (build_job E compress) jobs)) = Ok es.
+Print Assumptions C02_transport_lossless.
+
+Theorem C02_create_archive_extract :
+  forall (E D : encryption -> bytes -> bytes -> bytes) (compress : compression -> N -> list bytes -> list bytes)
+         (decompress : compression -> bytes -> res bytes) (verify : bytes -> bytes -> res bytes),
+  (forall a k c, len16 c -> len16 (D a k c)) -> (forall a k b, len16 b -> D a k (E a k b) = b) ->
+  (forall a k b, len16 b -> len16 (E a k b)) ->
+  (forall c lvl ws, decompress c (concat (compress c lvl ws)) = Ok (concat ws)) ->
+  (forall c lvl (ws ws' : list bytes), concat ws = concat ws' -> concat (compress c lvl ws) = concat (compress c lvl ws')) ->
+  forall c o out order t pw rb jobs,
+  o_guarded o = true -> wf_tree t -> tree_ok t -> walk_order_ok c o t order ->
+  Forall ExtractFacts.plain out -> out <> [] ->
+  Forall2 carries jobs (create_from_tree c order t) -> Forall (wf_job E compress verify pw) jobs ->
+  (forall j, In j jobs -> reads_to_end E compress rb j) ->
+  exists es, entries_of E D decompress verify pw rb (write_archive (map (build_job E compress) jobs)) = Ok es /\
+    es = create_from_tree c order t /\
+    tree_of c o out order (extract_all o out es (empty_dir out)) = expected c o order t /\
+    snd (extract_run o out es (empty_dir out)) = true.
+Proof. exact create_archive_extract. Qed.
+Check C02_create_archive_extract :
+  forall (E D : encryption -> bytes -> bytes -> bytes) (compress : compression -> N -> list bytes -> list bytes)
+         (decompress : compression -> bytes -> res bytes) (verify : bytes -> bytes -> res bytes),
+  (forall a k c, len16 c -> len16 (D a k c)) -> (forall a k b, len16 b -> D a k (E a k b) = b) ->
+  (forall a k b, len16 b -> len16 (E a k b)) ->
+  (forall c lvl ws, decompress c (concat (compress c lvl ws)) = Ok (concat ws)) ->
+  (forall c lvl (ws ws' : list bytes), concat ws = concat ws' -> concat (compress c lvl ws) = concat (compress c lvl ws')) ->
+  forall c o out order t pw rb jobs,
+  o_guarded o = true -> wf_tree t -> tree_ok t -> walk_order_ok c o t order ->
+  Forall ExtractFacts.plain out -> out <> [] ->
+  Forall2 carries jobs (create_from_tree c order t) -> Forall (wf_job E compress verify pw) jobs ->
+  (forall j, In j jobs -> reads_to_end E compress rb j) ->
+  exists es, entries_of E D decompress verify pw rb (write_archive (map (build_job E compress) jobs)) = Ok es /\
+    es = create_from_tree c order t /\
+    tree_of c o out order (extract_all o out es (empty_dir out)) = expected c o order t /\
+    snd (extract_run o out es (empty_dir out)) = true.
+Print Assumptions C02_create_archive_extract.
+
+(* AES-256 / Camellia-256 as modelled (Model/Aes.v, Model/Camellia.v): the block-cipher laws are theorems *)
+Theorem C02_create_archive_extract_real :
+  forall (compress : compression -> N -> list bytes -> list bytes)
+         (decompress : compression -> bytes -> res bytes) (verify : bytes -> bytes -> res bytes),
+  (forall c lvl ws, decompress c (concat (compress c lvl ws)) = Ok (concat ws)) ->
+  (forall c lvl (ws ws' : list bytes), concat ws = concat ws' -> concat (compress c lvl ws) = concat (compress c lvl ws')) ->
+  forall c o out order t pw rb jobs,
+  o_guarded o = true -> wf_tree t -> tree_ok t -> walk_order_ok c o t order ->
+  Forall ExtractFacts.plain out -> out <> [] ->
+  Forall2 carries jobs (create_from_tree c order t) -> Forall (wf_job real_E_of compress verify pw) jobs ->
+  (forall j, In j jobs -> reads_to_end real_E_of compress rb j) ->
+  exists es, entries_of real_E_of real_D_of decompress verify pw rb (write_archive (map (build_job real_E_of compress) jobs)) = Ok es /\
+    es = create_from_tree c order t /\
+    tree_of c o out order (extract_all o out es (empty_dir out)) = expected c o order t /\
+    snd (extract_run o out es (empty_dir out)) = true.
+Proof. exact create_archive_extract_real. Qed.
+Check C02_create_archive_extract_real :
+  forall (compress : compression -> N -> list bytes -> list bytes)
+         (decompress : compression -> bytes -> res bytes) (verify : bytes -> bytes -> res bytes),
+  (forall c lvl ws, decompress c (concat (compress c lvl ws)) = Ok (concat ws)) ->
+  (forall c lvl (ws ws' : list bytes), concat ws = concat ws' -> concat (compress c lvl ws) = concat (compress c lvl ws')) ->
+  forall c o out order t pw rb jobs,
+  o_guarded o = true -> wf_tree t -> tree_ok t -> walk_order_ok c o t order ->
+  Forall ExtractFacts.plain out -> out <> [] ->
+  Forall2 carries jobs (create_from_tree c order t) -> Forall (wf_job real_E_of compress verify pw) jobs ->
+  (forall j, In j jobs -> reads_to_end real_E_of compress rb j) ->
+  exists es, entries_of real_E_of real_D_of decompress verify pw rb (write_archive (map (build_job real_E_of compress) jobs)) = Ok es /\
+    es = create_from_tree c order t /\
+    tree_of c o out order (extract_all o out es (empty_dir out)) = expected c o order t /\
+    snd (extract_run o out es (empty_dir out)) = true.
+Print Assumptions C02_create_archive_extract_real.
+
+(* --solid: the entries travel inside one solid entry written by SolidArchive::add_entry *)
+Theorem C02_create_solid_archive_extract :
+  forall (E D : encryption -> bytes -> bytes -> bytes) (compress : compression -> N -> list bytes -> list bytes)
+         (decompress : compression -> bytes -> res bytes) (verify : bytes -> bytes -> res bytes),
+  (forall a k c, len16 c -> len16 (D a k c)) -> (forall a k b, len16 b -> D a k (E a k b) = b) ->
+  (forall a k b, len16 b -> len16 (E a k b)) ->
+  (forall c lvl ws, decompress c (concat (compress c lvl ws)) = Ok (concat ws)) ->
+  (forall c lvl (ws ws' : list bytes), concat ws = concat ws' -> concat (compress c lvl ws) = concat (compress c lvl ws')) ->
+  forall c o out order t pw rb jobs cfg ctx rbufs,
+  o_guarded o = true -> wf_tree t -> tree_ok t -> walk_order_ok c o t order ->
+  Forall ExtractFacts.plain out -> out <> [] ->
+  Forall2 carries jobs (create_from_tree c order t) -> Forall (wf_job E compress verify pw) jobs ->
+  (forall j, In j jobs -> reads_to_end E compress rb j) ->
+  wf_ctx verify ctx pw -> Forall (fun n => 0 < n) rbufs ->
+  covers compress cfg (solid_writes (map (build_job E compress) jobs)) rbufs ->
+  exists s ns es, parse_solid (solid_archive_chunks E compress cfg ctx (solid_writes (map (build_job E compress) jobs))) = Ok s /\
+    decode_solid E D decompress verify s pw rbufs = Ok (ns, FinOk) /\ read_entries_x E D decompress verify pw rb ns = Ok es /\
+    es = create_from_tree c order t /\
+    tree_of c o out order (extract_all o out es (empty_dir out)) = expected c o order t /\
+    snd (extract_run o out es (empty_dir out)) = true.
+Proof. exact create_solid_archive_extract. Qed.
+Print Assumptions C02_create_solid_archive_extract.
+
+(* the metadata ranges of the format, read off the tree *)
+Theorem C02_create_spec_wf : forall a c p n,
+  Forall normal_component p -> forallb utf8_valid p = true -> aux_ok a -> node_fits n ->
+  wf_spec (xspec a (entry_of c p n)).
+Proof. exact create_spec_wf. Qed.
+Check C02_create_spec_wf : forall a c p n,
+  Forall normal_component p -> forallb utf8_valid p = true -> aux_ok a -> node_fits n ->
+  wf_spec (xspec a (entry_of c p n)).
+Print Assumptions C02_create_spec_wf.
+
+(* ---- what reaches the extractor ----------------------------------------------------------------------------- *)
 Theorem C02_names_survive : forall p, Forall normal_component p -> name_comps (path_str p) = p.
 Proof. exact name_roundtrip. Qed.
 Check C02_names_survive : forall p, Forall normal_component p -> name_comps (path_str p) = p.
 Print Assumptions C02_names_survive.
 
-Theorem C02_create_entries_partial :
-  forall transport : list xentry -> list xentry, (forall es, transport es = es) ->
-  forall c t, wf_tree t -> forall order,
-  map (fun e => name_comps (e_name e)) (transport (create_from_tree c order t)) = filter (kept c t) order.
-Proof. exact create_entries_transported. Qed.
-Check C02_create_entries_partial :
-  forall transport : list xentry -> list xentry, (forall es, transport es = es) ->
-  forall c t, wf_tree t -> forall order,
-  map (fun e => name_comps (e_name e)) (transport (create_from_tree c order t)) = filter (kept c t) order.
-Print Assumptions C02_create_entries_partial.
+Theorem C02_create_entries : forall c t, wf_tree t -> forall order,
+  map (fun e => name_comps (e_name e)) (create_from_tree c order t) = filter (kept c t) order.
+Proof. exact create_entries. Qed.
+Check C02_create_entries : forall c t, wf_tree t -> forall order,
+  map (fun e => name_comps (e_name e)) (create_from_tree c order t) = filter (kept c t) order.
+Print Assumptions C02_create_entries.
 
-Theorem C02_round_trip_examples :
+Theorem C02_create_no_hardlinks : forall c t order, Forall (fun e => is_hardlink e = false) (create_from_tree c order t).
+Proof. exact create_no_hardlinks. Qed.
+Print Assumptions C02_create_no_hardlinks.
+
+(* ---- the premises are satisfiable, and the two that are not about well-formedness are needed ---------------- *)
+Example C02_premises_satisfiable : forall c o,
+  wf_tree ex_tree /\ tree_ok ex_tree /\ walk_order_ok c o ex_tree ex_order /\ Forall ExtractFacts.plain ex_out /\ ex_out <> [].
+Proof. exact create_extract_premises. Qed.
+Print Assumptions C02_premises_satisfiable.
+
+(* the old instance theorem: the complete statement evaluated in the kernel on that tree *)
+Example C02_round_trip_examples :
   (tree_of all_c all_x ex_out ex_order (extract_all all_x ex_out (create_from_tree all_c ex_order ex_tree) (empty_dir ex_out))
    = expected all_c all_x ex_order ex_tree
    /\ snd (extract_run all_x ex_out (create_from_tree all_c ex_order ex_tree) (empty_dir ex_out)) = true)
@@ -64,7 +237,31 @@ Theorem C02_round_trip_examples :
 Proof. exact (conj create_extract_ex_keep_all create_extract_ex_keep_nothing). Qed.
 Print Assumptions C02_round_trip_examples.
 
-(* premise of C02_create_entries_partial *)
-Theorem C02_premises_satisfiable : wf_tree ex_tree.
-Proof. exact wf_ex_tree. Qed.
-Print Assumptions C02_premises_satisfiable.
+Example C02_transport_premises :
+  Forall2 carries tx_jobs (create_from_tree tx_c tx_order tx_tree) /\
+  Forall (wf_job real_E_of tx_compress tx_verify tx_pw) tx_jobs /\
+  (forall j, In j tx_jobs -> reads_to_end real_E_of tx_compress tx_rb j) /\
+  (forall c lvl ws, tx_decompress c (concat (tx_compress c lvl ws)) = Ok (concat ws)) /\
+  wf_tree tx_tree /\ tree_ok tx_tree /\ (forall o, walk_order_ok tx_c o tx_tree tx_order) /\
+  entries_of real_E_of real_D_of tx_decompress tx_verify tx_pw tx_rb
+    (write_archive (map (build_job real_E_of tx_compress) tx_jobs)) = Ok (create_from_tree tx_c tx_order tx_tree).
+Proof. exact transport_premises. Qed.
+Print Assumptions C02_transport_premises.
+
+Theorem C02_create_extract_unguarded_refuted :
+  wf_tree t_link_mode /\ tree_ok t_link_mode /\ walk_order_ok c_perm x_perm_unguarded t_link_mode (map fst t_link_mode) /\
+  tree_of c_perm x_perm_unguarded ex_out (map fst t_link_mode)
+    (extract_all x_perm_unguarded ex_out (create_from_tree c_perm (map fst t_link_mode) t_link_mode) (empty_dir ex_out))
+  <> expected c_perm x_perm_unguarded (map fst t_link_mode) t_link_mode /\
+  tree_of c_perm x_perm_guarded ex_out (map fst t_link_mode)
+    (extract_all x_perm_guarded ex_out (create_from_tree c_perm (map fst t_link_mode) t_link_mode) (empty_dir ex_out))
+  = expected c_perm x_perm_guarded (map fst t_link_mode) t_link_mode.
+Proof. exact create_extract_unguarded_refuted. Qed.
+Print Assumptions C02_create_extract_unguarded_refuted.
+
+Theorem C02_parents_first_needed :
+  wf_tree t_dir_late /\ tree_ok t_dir_late /\ Permutation (map fst t_dir_late) (map fst t_dir_late) /\
+  snd (extract_run x_perm_guarded ex_out (create_from_tree c_dir (map fst t_dir_late) t_dir_late) (empty_dir ex_out)) = false /\
+  snd (extract_run (mk_xopts true true false false true) ex_out (create_from_tree c_dir (map fst t_dir_late) t_dir_late) (empty_dir ex_out)) = true.
+Proof. exact parents_first_needed. Qed.
+Print Assumptions C02_parents_first_needed.
